@@ -303,9 +303,23 @@ class Machine:
                 idx = fr.locals[e[1]]
                 ref = self.index_ref(ref, idx)
             elif k == 'cindex':
-                ref = self.index_ref(ref, usize(e[1]))
+                if e[2]:
+                    n = self._seq_len(ref); ref = self.index_ref(ref, usize(n - e[1]))       # `[-k of n]`: counted from the end
+                else: ref = self.index_ref(ref, usize(e[1]))
+            elif k == 'subslice':
+                n = self._seq_len(ref); lo = e[1]; hi = n - e[2] if e[3] else e[2]
+                if isinstance(ref, SliceHolder): s = ref.s; ref = SliceHolder(Slice(s.b, s.lo + lo, s.lo + hi, s.is_str))
+                else:
+                    v = ref.load()
+                    if isinstance(v, Agg): ref = SliceHolder(Slice(v.fields, lo, hi))
+                    else: raise Unsupported("subslice of %r" % (v,))
             else: raise Unsupported("proj " + k)
         return ref
+    def _seq_len(self, ref):
+        if isinstance(ref, SliceHolder): return len(ref.s)
+        v = ref.load()
+        if isinstance(v, Agg): return len(v.fields)
+        raise Unsupported("length of %r" % (v,))
     def index_ref(self, ref, idx):
         if idx.sym(): raise Unsupported("symbolic index")
         if isinstance(ref, SliceHolder):
@@ -344,6 +358,15 @@ class Machine:
         if txt.startswith('b"'):
             bs = [U(8, x) for x in unescape_bytes(txt[2:-1])]
             return Ref([Agg('array', 0, bs)], 0)
+        ma = re.match(r'^\{alloc(\d+): &', txt)
+        if ma and int(ma.group(1)) in mp.STATIC_ALLOCS:
+            # a reference to a `static` item: evaluate its initialiser once
+            key = self.lookup(mp.STATIC_ALLOCS[int(ma.group(1))])
+            if key is not None and self.bodies[key].kind in ('static', 'const'):
+                b = self.bodies[key]
+                if b.name not in self.statics:
+                    mp.ensure_parsed(b); self.statics[b.name] = self.run(Frame(b))
+                return Ref([self.statics[b.name]], 0)
         if txt.startswith('ZeroSized: '):
             t = txt[len('ZeroSized: '):]
             if t.startswith('{closure@'): return Agg(t, 0, [])
